@@ -19,14 +19,16 @@ RULE = ('room = 2..6 base stations with arbitrary distinct ids 0..15 at 1.5-4 m 
 ASSUMPTIONS = ['visibility model: all four sensors within +-60 deg horizontal / +-50 deg vertical of the base station and '
                'the base station above the deck plane', 'measurements are exact (float64) V1 sweep angles']
 REQUIRED = ['mon.rooms_solved', 'mon.bs_poses_compared', 'mon.cf_poses_compared', 'mon.matcher_groups_checked',
-            'mon.unlinkable_rooms', 'mon.partial_visibility_rooms']
+            'mon.unlinkable_rooms', 'mon.partial_visibility_rooms', 'mon.tight_time_layouts', 'mon.matcher_streams',
+            'mon.matcher_streams_with_pause_shorter_than_window']
 DESC_TIMEOUT = 1800
 
 
 def cases(tier, seed):
     n = 10 if tier == 'quick' else 250
     per = 16
-    return [{'seed': seed * 100003 + i, 'rooms': per} for i in range(n)]
+    return [{'seed': seed * 100003 + i, 'rooms': per} for i in range(n)] + \
+        [{'seed': seed * 977 + i, 'matcher_streams': 400} for i in range(2 if tier == 'quick' else 40)]
 
 
 def pose_err(R_est, t_est, R_true, t_true):
@@ -62,16 +64,25 @@ def run_room(ctx, rseed, mode):
         if len(big) < 2 or len(used) < 3:
             return 'skip'
     # ---- measurements
+    # time layout: poses well apart, or so close that the pause between two poses is shorter than the matching
+    # window although each pose starts more than a window after the previous one started
+    lrnd = random.Random(rseed ^ 0x5EED)
+    spacing, spread = lrnd.choice(((0.1, 0.02), (0.1, 0.02), (0.025, 0.01), (0.03, 0.015), (0.035, 0.018), (0.0201, 0.004)))
+    if spacing < 0.1:
+        ctx.count('mon.tight_time_layouts')
     meas = []
     for (k, seen) in groups:
-        base = k * 0.1
+        base = k * spacing
         g = []
         for j, i in enumerate(seen):
             dirs = lhgen.sensor_dirs(rm['bs'][i], rm['cf'][k])
             vecs = LighthouseBsVectors([LighthouseBsVector(math.atan2(d[1], d[0]), math.atan2(d[2], d[0])) for d in dirs])
-            ts = base + (0.0 if j == 0 else rnd.uniform(0.0, 0.02))
+            ts = base + (0.0 if j == 0 else rnd.uniform(0.0, 0.02) * (spread / 0.02))
             g.append(LhMeasurement(timestamp=ts, base_station_id=i, angles=vecs))
-        rnd.shuffle(g)
+        if spacing < 0.1:
+            g.sort(key=lambda m: m.timestamp)
+        else:
+            rnd.shuffle(g)
         meas += g
     ctx.evals()
     # ---- matcher
@@ -158,10 +169,74 @@ def run_room(ctx, rseed, mode):
     return (worst_t, worst_r, len(rm['ids']), len(ks))
 
 
+def run_matcher_streams(ctx, seed, n):
+    """Reference-model monitor of the sample matcher on time-ordered measurement streams: a group holds the
+    measurements that lie within max_time_diff of the group's FIRST measurement; per base station the latest
+    measurement of the group wins; groups with fewer than min_nr_of_bs base stations are dropped."""
+    from cflib.localization.lighthouse_sample_matcher import LighthouseSampleMatcher
+    from cflib.localization.lighthouse_types import LhMeasurement
+    rnd = random.Random(seed)
+    for case in range(n):
+        mtd = rnd.choice((0.020, 0.020, 0.005, 0.1, 0.0))
+        min_bs = rnd.choice((0, 1, 2, 3))
+        nbs = rnd.randint(1, 5)
+        t = rnd.choice((0.0, 1.0, 1234.5))
+        meas = []
+        for _ in range(rnd.randint(0, 40)):
+            r = rnd.random()
+            unit = mtd if mtd > 0 else 0.01
+            if r < 0.45:
+                gap = rnd.uniform(0, 0.4) * unit
+            elif r < 0.6:
+                gap = rnd.uniform(0.6, 0.999) * unit       # shorter than the window
+            elif r < 0.75:
+                gap = rnd.uniform(1.001, 1.5) * unit       # longer than the window
+            elif r < 0.85:
+                gap = 0.0
+            else:
+                gap = rnd.uniform(2, 10) * unit
+            t += gap
+            meas.append(LhMeasurement(timestamp=t, base_station_id=rnd.randrange(nbs), angles=('angles', len(meas))))
+        want = []
+        cur = None
+        for m in meas:
+            if cur is None or m.timestamp > cur[0] + mtd:
+                if cur is not None and len(cur[1]) >= min_bs:
+                    want.append(cur)
+                cur = (m.timestamp, {})
+            cur[1][m.base_station_id] = m.angles
+        if cur is not None and len(cur[1]) >= min_bs:
+            want.append(cur)
+        try:
+            got = LighthouseSampleMatcher.match(meas, max_time_diff=mtd, min_nr_of_bs_in_match=min_bs)
+        except Exception as e:  # noqa
+            ctx.violate('lh:matcher-raised:%s' % type(e).__name__, {'error': repr(e), 'n': len(meas)},
+                        replay={'seed': seed, 'matcher_streams': n})
+            return
+        ctx.evals()
+        ctx.count('mon.matcher_streams')
+        gotn = [(g.timestamp, dict(g.angles_calibrated)) for g in got]
+        spans = [w for w in want]
+        if any(b[0] - a[0] <= 2 * mtd for a, b in zip(spans, spans[1:])):
+            ctx.count('mon.matcher_streams_with_pause_shorter_than_window')
+        if want:
+            ctx.nontrivial(('matcher', seed, case))
+        if gotn != [(w[0], w[1]) for w in want]:
+            ctx.violate('lh:matcher-groups-differ-from-time-groups:stream-model',
+                        {'max_time_diff': mtd, 'min_bs': min_bs, 'timestamps': [round(m.timestamp, 5) for m in meas][:40],
+                         'bs': [m.base_station_id for m in meas][:40], 'got_groups': [(round(a, 5), sorted(b)) for a, b in gotn][:20],
+                         'want_groups': [(round(w[0], 5), sorted(w[1])) for w in want][:20]},
+                        replay={'seed': seed, 'matcher_streams': n})
+            return
+
+
 def run(desc, ctx):
     core.setup_path()
     import warnings
     warnings.filterwarnings('ignore')
+    if desc.get('matcher_streams'):
+        run_matcher_streams(ctx, desc['seed'], desc['matcher_streams'])
+        return
     if desc.get('single'):
         run_room(ctx, desc['seed'], desc['mode'])
         return
